@@ -116,6 +116,20 @@ Technique (numbers: ALLOWED devices of RULES_GUIDE.md, "What counts as static he
        module parser; its whitespace post-processor passes every token on unchanged, once, in order; from_text parses the
        text it is given with the same parser).  Its devices (1, 2, 3, 4, 5, 6) and lemmas are declared there.  Undecided
        when that rule cannot be imported / evaluated.
+  R14  6 (the compiled STRING terminal is read on its parsed regex syntax tree and turned into a prioritised automaton: one
+       thread list per position, alternation / greedy / lazy choices in the order CPython's backtracking tries them - lemma P;
+       a one-character look-behind is a condition on the character class consumed last), 4 (finite abstract alphabet: the
+       atoms of the partition of the code points by the character sets the pattern names and the characters the literal
+       language distinguishes - every character of an atom is treated alike by both sides), 2 (reachability in the product of
+       that automaton with the automaton of the generated text: literal = quote, tokens of an escape-encoding - lemma E4:
+       plain printable character, backslash pair, escaped quote, backslash + control letter of the reference escape table,
+       backslash x + two hex digits -, quote; then `;` or space, separators, further literals).  No text is matched against
+       the pattern and no literal is made up: the literals are a regular LANGUAGE and both obligations are graph questions -
+       a. at the closing quote of the literal a match is recorded (violated: a reachable product state at the closing quote
+       without a recorded match - the witness is the path of atoms that leads there); b. after that no thread of higher
+       priority records another match (violated: the token runs on to a later quote).  Undecided: no STRING terminal, or a
+       pattern with constructs the automaton does not model (anchors, look-ahead, longer look-behinds, back-references,
+       atomic groups, flags other than DOTALL, a lone character category, a look-behind evaluated before the opening quote).
 """
 
 from __future__ import annotations
@@ -2028,7 +2042,12 @@ def run(ctx):
         "where it is called, so a block must be complete before it is tested - and no builder object may be attached twice (R13); "
         "the text of the profile is the reconstruction of that tree with every token "
         "passed on unchanged by the whitespace post-processor of as_text, and from_text parses the text it is given (R12 = the "
-        "obligations of C10.R3: a rewrite of the laid-out line also rewrites the inside of quoted values)."
+        "obligations of C10.R3: a rewrite of the laid-out line also rewrites the inside of quoted values); the STRING terminal "
+        "of the grammar, read on its parsed regex syntax tree as a prioritised automaton over its own character classes, is "
+        "composed with the regular language of the text the generator writes around a byte argument (quote, escape-encoded "
+        "argument, quote, then separators and further literals): at the closing quote of every such literal - in particular one "
+        "whose content ends in an escaped backslash or contains escaped quotes - a match must be recorded and no thread of "
+        "higher priority may carry the token on to a later quote (R14; reachability in the product graph, no text is matched)."
     )
     rep.not_decided = ["equality of the parsed-back values for all configurations", "options the generator chooses to skip",
                        "escaping of static header/parameter decorations (raw text on both sides of the round trip)",
@@ -2049,7 +2068,11 @@ def run(ctx):
                        "block was attached still shows up in the profile (it does as long as set_config_block hands the child's list over by reference; on the current tree every block is "
                        "complete when it is attached); content skipped under a test on the very value that was put there (the generator may choose to skip falsy values); "
                        "attachments made by other means than the builder primitives / constructor keywords (undecided)",
-                       "R2: attributes installed on a builder class by code the walker cannot follow (a decorator from outside the package, computed names): a failed lookup is undecided"]
+                       "R2: attributes installed on a builder class by code the walker cannot follow (a decorator from outside the package, computed names): a failed lookup is undecided",
+                       "R14: literals of str-valued settings and of the decoded static header / parameter lines (raw text: a backslash or quote in them is not escaped by the generator - "
+                       "not judged), literals with characters outside printable ASCII or with a raw newline; STRING patterns with constructs the automaton does not model (undecided); "
+                       "which terminal the lexer tries at an opening quote when several could start there (C12.R4 checks that STRING is the only quoted-literal terminal); that the "
+                       "decoder reads the token back (C12.R2 / R3)"]
     rep.trusted_base = ["lark grammar loader", "CPython ast", "reference BeaconGate/opcode/executor-spelling tables (csverif.tables, _CS_SPELLING, _ARG_EXECUTORS, _DECORATIONS)",
                         "the symbolic walker of rules/c13.py (path-wise value flow; models builtin containers the code builds, nothing is computed from unknown data)",
                         "summary of the ConfigBlock primitives used for `block.tree.children` tests: set_option / _enable / set_config_block add one child, a pair primitive one per line, "
@@ -2082,6 +2105,15 @@ def run(ctx):
                         "lark tree shaping: an un-aliased unit production of a `?rule` (single child) or `_rule` leaves no node of its own, the node is the one its child makes (`_alts`)",
                         "python class construction: class decorators are applied bottom-up to the finished class; setattr(C, name, v) / C.name = v bind the attribute after the body",
                         "R12 re-emits the obligations of rules/c10.py `r3` (C10.R3); its trusted base (lark Reconstructor.reconstruct / postproc contract, lemmas L1-L4, LT, LX, assumptions A1, A2) applies",
+                        "R14 lemma P: CPython's re returns the leftmost-first match - equivalently, threads kept in priority order (left alternative first, a greedy repeat prefers "
+                        "another round, a lazy one the exit), a match recorded when a thread reaches the end of the pattern, threads of lower priority dropped at that moment, the last "
+                        "recorded match returned; lark's LALR (contextual) lexer applies the terminal's compiled pattern at the position of the opening quote with re.match; a helper "
+                        "terminal / concatenation of a terminal definition is compiled by lark into one pattern (the value read from the loaded grammar)",
+                        "R14 lemma E4 as a language: every sequence of the tokens `printable ASCII character other than quote and backslash`, backslash backslash, backslash quote, "
+                        "backslash + n / r / t (the control-character letters of csverif.tables.ESCAPES), backslash x + two lower-case hex digits is the content of the literal "
+                        "value_to_string writes for some byte argument (arbitrary byte arguments; R4 / R11 / C12.R1 judge that the generator and the encoder are such an escaper); in a "
+                        "generated profile a literal is followed by `;` or a space, then by separators (`;`, space, newline, lower-case letters) and further literals; characters of one "
+                        "atom of the abstract alphabet are interchangeable for the pattern and for this language",
                         "nullness / type-tag facts: a value that is not None is not `None`; a bytes / str / int value is not the object True / False and is unequal to values of unrelated builtin types"]
     g = Grammar(ctx.repo)
     r1(ctx, g)
@@ -2094,6 +2126,7 @@ def run(ctx):
     r9(ctx, g)
     r10(ctx, g)
     r13(ctx)
+    r14(ctx, g)
     from rules import c03
 
     c03.r6(ctx, rule="R7")
@@ -4239,3 +4272,352 @@ def r8(ctx):
     ctx.ob("R8", "AGREE", a, "add_step ~ add_termination", ok,
            "the two builders build the same statement term and differ only in the list they append to" if ok else
            f"siblings differ: add_step {va[:3]} add_termination {vb[:3]}; distinct lists={distinct}"[:500])
+
+
+# ---------------------------------------------------------------------------- R14
+# The STRING terminal against the literals the generator writes.  The generated text is valid, and states the configured
+# bytes, only if the lexer cuts every literal `"` + <escape-encoded argument> + `"` out of the text as ONE token that ends
+# at the literal's closing quote.  Nothing is matched against sample text here: the parsed pattern (re syntax tree) is
+# compiled into a prioritised automaton over a finite abstract alphabet, and the (infinite) set of generated literals is
+# the regular language of a small automaton over the same alphabet; the obligations are reachability questions in the
+# product graph.
+#
+#  alphabet   the atoms of the partition of the code points by every character set the pattern names (literals, classes,
+#             `.`) and by the characters the literal language distinguishes (quote, backslash, newline, the escape letters,
+#             the hex digits, the bounds of printable ASCII, `;`, space).  All characters of an atom are treated alike by
+#             the pattern and by the literal language, so an atom is a letter.
+#  literals   lemma E4 (trusted base; R11 / C12.R1 judge whether the encoder is such an escaper): the content of a literal
+#             written for a bytes argument is a sequence of tokens - a printable ASCII character other than quote and
+#             backslash; backslash backslash; backslash quote; backslash + one of the control-character letters of the
+#             reference escape table; backslash x + two lower-case hex digits - and every such sequence is the content for
+#             some argument (arbitrary byte arguments).  After the literal the profile goes on with `;` or a space, further
+#             separators (`;`, space, newline, lower-case letters) and further literals.
+#  pattern    lemma P (CPython's re: leftmost-first backtracking = the prioritised thread list of a Pike machine): the threads
+#             are kept in priority order (an alternation prefers its left branch, a greedy repeat another round, a lazy one the
+#             exit); when the thread list reaches the end of the pattern a match ending here is recorded and every thread of
+#             lower priority is dropped; the match returned is the one recorded last.  A one-character look-behind is a
+#             condition on the atom consumed last.  Everything else (anchors, look-ahead, back-references, atomic groups,
+#             flags other than DOTALL, a single character category) is not modelled: undecided.
+_R14_CAP = 16
+_R14_STATES = 60000
+_R14_MAXCP = 0x10FFFF
+
+
+class _RxUnsupported(Exception):
+    pass
+
+
+def _iv_merge(ivs):
+    out = []
+    for lo, hi in sorted(ivs):
+        if out and lo <= out[-1][1] + 1:
+            out[-1] = (out[-1][0], max(out[-1][1], hi))
+        else:
+            out.append((lo, hi))
+    return out
+
+
+def _iv_compl(ivs):
+    out, nxt = [], 0
+    for lo, hi in _iv_merge(ivs):
+        if lo > nxt:
+            out.append((nxt, lo - 1))
+        nxt = hi + 1
+    if nxt <= _R14_MAXCP:
+        out.append((nxt, _R14_MAXCP))
+    return out
+
+
+def _sre():
+    try:
+        import re._constants as sc
+        import re._parser as sp
+    except ImportError:  # pragma: no cover - older CPython
+        import sre_constants as sc
+        import sre_parse as sp
+    return sp, sc
+
+
+class _Rx:
+    """Prioritised automaton of a parsed pattern.  Nodes: ('char', intervals -> atoms, next) | ('split', [next by priority])
+    | ('prev', intervals -> atoms, negated, next) | ('match',)."""
+
+    def __init__(self, pattern: str, flags=()):
+        sp, sc = _sre()
+        self.sc = sc
+        letters = "".join(sorted(flags or ()))
+        if letters.replace("s", ""):
+            raise _RxUnsupported(f"terminal flags {letters!r}")
+        try:
+            parsed = sp.parse(pattern)
+        except Exception as e:
+            raise _RxUnsupported(f"the pattern does not parse: {e}")
+        gflags = getattr(getattr(parsed, "state", None), "flags", 0)
+        allowed = sc.SRE_FLAG_UNICODE | sc.SRE_FLAG_DOTALL | sc.SRE_FLAG_VERBOSE | sc.SRE_FLAG_MULTILINE
+        if gflags & ~allowed:
+            raise _RxUnsupported("pattern flags other than DOTALL")
+        self.nodes: list = []
+        self.sets: list = []
+        self.match = self._new(("match",))
+        self.start = self._seq(list(parsed), self.match, bool(gflags & sc.SRE_FLAG_DOTALL) or "s" in letters)
+        self.atoms: list = []
+
+    def _new(self, node):
+        self.nodes.append(node)
+        return len(self.nodes) - 1
+
+    def _charset(self, op, av, dotall):
+        sc = self.sc
+        if op is sc.LITERAL:
+            return [(av, av)]
+        if op is sc.NOT_LITERAL:
+            return _iv_compl([(av, av)])
+        if op is sc.ANY:
+            return [(0, _R14_MAXCP)] if dotall else _iv_compl([(10, 10)])
+        if op is sc.IN:
+            neg, ivs, cats = False, [], set()
+            for iop, iav in av:
+                if iop is sc.NEGATE:
+                    neg = True
+                elif iop is sc.LITERAL:
+                    ivs.append((iav, iav))
+                elif iop is sc.RANGE:
+                    ivs.append((iav[0], iav[1]))
+                elif iop is sc.CATEGORY:
+                    cats.add(iav)
+                else:
+                    raise _RxUnsupported(f"class item {iop}")
+            if cats:
+                # lemma: a category and its negation partition the characters; a single category is not modelled
+                pairs = ((sc.CATEGORY_DIGIT, sc.CATEGORY_NOT_DIGIT), (sc.CATEGORY_SPACE, sc.CATEGORY_NOT_SPACE), (sc.CATEGORY_WORD, sc.CATEGORY_NOT_WORD))
+                if any(a in cats and b in cats for a, b in pairs):
+                    ivs = [(0, _R14_MAXCP)]
+                else:
+                    raise _RxUnsupported("a character category (\\s, \\d, \\w ...) on its own")
+            return _iv_compl(ivs) if neg else _iv_merge(ivs)
+        return None
+
+    def _seq(self, items, nxt, dotall):
+        for op, av in reversed(list(items)):
+            nxt = self._one(op, av, nxt, dotall)
+        return nxt
+
+    def _one(self, op, av, nxt, dotall):
+        sc = self.sc
+        cs = self._charset(op, av, dotall)
+        if cs is not None:
+            self.sets.append(cs)
+            return self._new(("char", cs, nxt))
+        if op is sc.SUBPATTERN:
+            _group, add, rem, sub = av
+            if (add | rem) & ~sc.SRE_FLAG_DOTALL:
+                raise _RxUnsupported("scoped flags other than DOTALL")
+            if add & sc.SRE_FLAG_DOTALL:
+                dotall = True
+            if rem & sc.SRE_FLAG_DOTALL:
+                dotall = False
+            return self._seq(sub, nxt, dotall)
+        if op is sc.BRANCH:
+            return self._new(("split", [self._seq(alt, nxt, dotall) for alt in av[1]]))
+        if op in (sc.MIN_REPEAT, sc.MAX_REPEAT):
+            lo, hi, sub = av
+            lazy = op is sc.MIN_REPEAT
+            if lo > _R14_CAP or (hi is not sc.MAXREPEAT and hi - lo > _R14_CAP):
+                raise _RxUnsupported("a counted repeat with a large bound")
+            if hi is sc.MAXREPEAT:
+                loop = self._new(None)
+                body = self._seq(sub, loop, dotall)
+                self.nodes[loop] = ("split", [nxt, body] if lazy else [body, nxt])
+                cur = loop
+            else:
+                cur = nxt
+                for _ in range(hi - lo):
+                    body = self._seq(sub, cur, dotall)
+                    cur = self._new(("split", [nxt, body] if lazy else [body, nxt]))
+            for _ in range(lo):
+                cur = self._seq(sub, cur, dotall)
+            return cur
+        if op in (sc.ASSERT, sc.ASSERT_NOT):
+            direction, sub = av
+            sub = list(sub)
+            cs = self._charset(sub[0][0], sub[0][1], dotall) if len(sub) == 1 else None
+            if direction != -1 or cs is None:
+                raise _RxUnsupported("a look-around other than a one-character look-behind")
+            self.sets.append(cs)
+            return self._new(("prev", cs, op is sc.ASSERT_NOT, nxt))
+        raise _RxUnsupported(f"pattern construct {str(op).lower()}")
+
+    # ---- abstract alphabet
+    def atomise(self, special: str):
+        cuts = {0, _R14_MAXCP + 1}
+        for cs in self.sets:
+            for lo, hi in cs:
+                cuts.update((lo, hi + 1))
+        for ch in special:
+            cuts.update((ord(ch), ord(ch) + 1))
+        cuts = sorted(cuts)
+        self.atoms = [(a, b - 1) for a, b in zip(cuts, cuts[1:])]
+        for i, node in enumerate(self.nodes):
+            if node[0] in ("char", "prev"):
+                self.nodes[i] = (node[0], self.atoms_in(node[1])) + tuple(node[2:])
+
+    def atoms_in(self, ivs) -> frozenset:
+        ivs = _iv_merge(ivs)
+        return frozenset(i for i, (a, b) in enumerate(self.atoms) if any(lo <= a and b <= hi for lo, hi in ivs))
+
+    def atoms_of(self, chars: str) -> frozenset:
+        return self.atoms_in([(ord(c), ord(c)) for c in chars])
+
+    # ---- lemma P: the prioritised thread list
+    def _close(self, roots, prev):
+        out, seen = [], set()
+        stack = list(reversed(roots))
+        while stack:
+            n = stack.pop()
+            if n in seen:
+                continue
+            seen.add(n)
+            node = self.nodes[n]
+            if node[0] == "split":
+                stack.extend(reversed(node[1]))
+            elif node[0] == "prev":
+                if prev is None:
+                    raise _RxUnsupported("a look-behind at the very start of the token (the character before the opening quote is not modelled)")
+                if (prev in node[1]) != node[2]:
+                    stack.append(node[3])
+            else:
+                out.append(n)
+                if node[0] == "match":
+                    break  # threads of lower priority are dropped
+        return tuple(out)
+
+    def initial(self):
+        return self._close([self.start], None)
+
+    def step(self, threads, atom):
+        nxt = [self.nodes[t][2] for t in threads if self.nodes[t][0] == "char" and atom in self.nodes[t][1]]
+        return self._close(nxt, atom)
+
+    def records(self, threads) -> bool:
+        return bool(threads) and threads[-1] == self.match
+
+    def show(self, atom) -> str:
+        lo, hi = self.atoms[atom]
+        if lo == 10:
+            return "<newline>"
+        for c in range(max(lo, 0x21), min(hi, 0x7E) + 1):
+            return chr(c)
+        return " " if lo <= 0x20 <= hi else f"<U+{lo:04X}>"
+
+
+def _r14_literal_language(rx: _Rx):
+    """Transitions of the automaton of `literal separator (literal separator)*` over the atoms (see the section comment).
+    States: S | c0 c1 h1 h2 (inside the literal under consideration) | END (its closing quote was just read) | sep d0 d1 g1 g2."""
+    q, bs = rx.atoms_of('"'), rx.atoms_of("\\")
+    plain = rx.atoms_in([(0x20, 0x7E)]) - q - bs
+    letters = rx.atoms_of("".join(k for k, v in tables.ESCAPES.items() if isinstance(v, int) and v < 0x20))
+    hexd = rx.atoms_of("0123456789abcdef")
+    x = rx.atoms_of("x")
+    first = rx.atoms_of("; ")
+    sep = first | rx.atoms_of("\n") | rx.atoms_in([(ord("a"), ord("z"))])
+
+    def content(c0, c1, h1, h2, closing):
+        return {c0: [(plain, c0), (bs, c1), (q, closing)], c1: [(bs | q | letters, c0), (x, h1)], h1: [(hexd, h2)], h2: [(hexd, c0)]}
+
+    delta = {"S": [(q, "c0")], "END": [(first, "sep")], "sep": [(sep, "sep"), (q, "d0")]}
+    delta.update(content("c0", "c1", "h1", "h2", "END"))
+    delta.update(content("d0", "d1", "g1", "g2", "sep"))
+    return delta
+
+
+def _r14_explore(rx: _Rx):
+    """Reachability in the product of the literal language with the thread lists of the pattern.  Returns (early, late,
+    states): witness atom paths for 'no match of the pattern is recorded at the closing quote of a literal' (with the flag
+    whether a match was recorded before, inside the literal) and for 'a match is recorded after the closing quote'."""
+    delta = _r14_literal_language(rx)
+    init = ("S", rx.initial(), False)
+    parent = {init: None}
+    queue = collections.deque([init])
+    early = late = None
+    while queue:
+        cur = queue.popleft()
+        ist, threads, rec = cur
+        hit = rx.records(threads)
+        if ist == "END":
+            if not hit:
+                if early is None:
+                    early = (cur, rec, bool(threads))
+                continue
+        elif ist in ("sep", "d0", "d1", "g1", "g2"):
+            if hit:
+                if late is None:
+                    late = (cur,)
+                continue
+            if not threads:
+                continue
+        elif hit and ist != "S":
+            rec = True
+        if early is not None and late is not None:
+            break
+        for atoms, nst in delta[ist]:
+            for a in sorted(atoms):
+                nxt = (nst, rx.step(threads, a), rec)
+                if nxt not in parent:
+                    if len(parent) > _R14_STATES:
+                        raise _RxUnsupported("the product automaton is too large")
+                    parent[nxt] = (cur, a)
+                    queue.append(nxt)
+
+    def path(state):
+        out = []
+        while parent[state] is not None:
+            state, a = parent[state]
+            out.append(a)
+        return "".join(rx.show(a) for a in reversed(out))
+
+    return ((path(early[0]),) + early[1:] if early else None), (path(late[0]) if late else None), len(parent)
+
+
+def r14(ctx, g: Grammar):
+    """The STRING terminal cuts every literal the generator writes out of the text as one token (section comment above)."""
+    where = "c2profile.lark::STRING"
+    t_end, t_run = "a generated literal is one token that ends at its closing quote", "the token of a generated literal does not run past its closing quote"
+    kind, val = g.terminals.get("STRING", (None, None))
+    if kind is None:
+        for text in (t_end, t_run):
+            ctx.undecided("R14", "GRAM", where, text, "the grammar has no terminal STRING: the terminal that tokenises the literals value_to_string writes was not located")
+        return
+    if kind != "re":
+        ctx.ob("R14", "GRAM", where, t_end, False, f"STRING is the constant string {val!r}: no literal with a configured value is a STRING token")
+        return
+    flags = ()
+    for t in getattr(g.lark, "terminals", []):
+        if t.name == "STRING":
+            flags = tuple(getattr(t.pattern, "flags", ()) or ())
+    try:
+        rx = _Rx(val, flags)
+        rx.atomise('"\\\n; x0123456789abcdef\x20\x7e\x7f' + "".join(k for k in tables.ESCAPES if len(k) == 1))
+        early, late, n = _r14_explore(rx)
+    except _RxUnsupported as e:
+        for text in (t_end, t_run):
+            ctx.undecided("R14", "GRAM", where, text, f"STRING = {val!r}: the pattern is not understood by the syntax-tree analysis ({e})")
+        return
+    ctx.rep.count("string_terminal_product_states", n, floor=7)
+    base = f"STRING = {val!r}: "
+    if early is not None:
+        w, rec, alive = early
+        how = ("the pattern's match ends earlier, inside the literal" if rec else "the pattern has no match that ends there") + ("; it can only go on to a later quote" if alive else "")
+        ctx.ob("R14", "GRAM", where, t_end, False,
+               base + f"the literal {w} - quote, escape-encoded argument as value_to_string writes it, quote - is not cut out as one STRING token: at its closing quote {how}. "
+               "The generated profile is not valid text for the grammar / does not state the argument")
+    else:
+        ctx.ob("R14", "GRAM", where, t_end, True,
+               base + "for every literal quote + tokens of an escape-encoding (plain printable character, backslash pair, escaped quote, backslash letter, backslash x hex hex) + quote "
+               "the prioritised match of the pattern records a match at the closing quote (product automaton over the pattern's character classes)")
+    if late is not None:
+        ctx.ob("R14", "GRAM", where, t_run, False,
+               base + f"in the text {late} the match that starts at the first quote is extended past the closing quote of the first literal (a thread of higher priority than the "
+               "exit stays alive and reaches a later quote): the token swallows the text between two values")
+    else:
+        ctx.ob("R14", "GRAM", where, t_run, True, base + "once the match at the closing quote is recorded no thread of higher priority reaches another match in the text that follows "
+               "(`;` or space, separators, further literals)" + (" - on the paths whose first literal is a token" if early is not None else ""))
